@@ -1,4 +1,5 @@
 import DaskModel.Props.C18
+import DaskModel.Model.KeySplit
 /-!
 # C18 (continued) — units in any letter case, exactness of the finding's range, shape of `natural_sort_key`
 
@@ -256,5 +257,318 @@ theorem timedelta_sizes_documented :
       lookup timedeltaSizes p.1 = some p.2 := by decide
 
 example : naturalSortKey "f10a007" =[.text ['f'], .num 10, .text ['a'], .num 7, .text []] := by decide
+
+/-!
+# C18 (continued) — the documented shape of `key_split`, and the unit-less paths of `parse_timedelta`
+
+* `key_split_name_prefix`, `key_split_all_words` — for the keys dask generates (`name-words-…-token`): the result is
+  the leading run of alphabetic words (8-letter words starting with `a`–`f` count as hex and stop the run)
+* `key_split_hex32` — a bare 32-character lower-case hex token is reported as `"data"`
+* `parse_timedelta_default_unit` — a string without trailing letters is read in the `default` unit, exactly as if the
+  unit had been written; `parse_timedelta_bare_unit` — a bare unit means one of it
+`key_split` returns `"Other"` whenever anything raises: totality is by construction (`keySplit` is a total function).
+-/
+
+open Dask.KeySplit
+
+/-- `"-".join(words)` -/
+def joinDash : List (List Char) → List Char
+  | [] => []
+  | [w] => w
+  | w :: w' :: ws => w ++ '-' :: joinDash (w' :: ws)
+
+theorem splitL_ne_nil (sep : Char) (cs : List Char) : splitL sep cs ≠ [] := by
+  induction cs with
+  | nil => simp [splitL]
+  | cons c r ih =>
+    simp only [splitL]
+    cases h : splitL sep r with
+    | nil => simp
+    | cons p ps => by_cases hc : c = sep <;> simp [hc]
+
+theorem splitL_noSep (sep : Char) (w : List Char) (h : sep ∉ w) : splitL sep w = [w] := by
+  induction w with
+  | nil => simp [splitL]
+  | cons c r ih =>
+    simp only [List.mem_cons, not_or] at h
+    simp only [splitL, ih h.2]
+    have : c ≠ sep := fun e => h.1 e.symm
+    simp [this]
+
+theorem splitL_append_sep (sep : Char) (w rest : List Char) (h : sep ∉ w) :
+    splitL sep (w ++ sep :: rest) = w :: splitL sep rest := by
+  induction w with
+  | nil =>
+    simp only [List.nil_append, splitL]
+    cases hs : splitL sep rest with
+    | nil => exact absurd hs (splitL_ne_nil sep rest)
+    | cons p ps => simp
+  | cons c r ih =>
+    simp only [List.mem_cons, not_or] at h
+    simp only [List.cons_append, splitL, ih h.2]
+    have : c ≠ sep := fun e => h.1 e.symm
+    simp [this]
+
+theorem splitL_joinDash : ∀ (words : List (List Char)), words ≠ [] → (∀ w ∈ words, '-' ∉ w) →
+    splitL '-' (joinDash words) = words
+  | [], h, _ => absurd rfl h
+  | [w], _, hw => by simp [joinDash, splitL_noSep '-' w (hw w (by simp))]
+  | w :: w' :: ws, _, hw => by
+    simp only [joinDash]
+    rw [splitL_append_sep '-' w _ (hw w (by simp)),
+        splitL_joinDash (w' :: ws) (by simp) (fun x hx => hw x (List.mem_cons_of_mem _ hx))]
+
+/-- `-w1-w2…` -/
+def tailJoin (ws : List (List Char)) : List Char := (ws.map fun w => '-' :: w).flatten
+
+theorem joinDash_cons (w0 : List Char) (ws : List (List Char)) : joinDash (w0 :: ws) = w0 ++ tailJoin ws := by
+  induction ws generalizing w0 with
+  | nil => simp [joinDash, tailJoin]
+  | cons w ws ih => simp [joinDash, ih w, tailJoin]
+
+/-- a word the loop of `key_split` keeps: alphabetic and not an 8-letter word starting with a–f -/
+def Keeps (w : List Char) : Prop := isWordAlpha w = true ∧ looksHex8 w = false
+
+theorem extend_keeps (ws : List (List Char)) (hws : ∀ w ∈ ws, Keeps w) (result : List Char) (rest : List (List Char)) :
+    extend result (ws ++ rest) = extend (result ++ tailJoin ws) rest := by
+  induction ws generalizing result with
+  | nil => simp [tailJoin]
+  | cons w ws ih =>
+    have hw := hws w (by simp)
+    simp only [List.cons_append, extend, hw.1, hw.2, Bool.not_false, Bool.and_self, if_true]
+    rw [ih (fun x hx => hws x (List.mem_cons_of_mem _ hx))]
+    simp [tailJoin]
+
+theorem alpha_no_dash (w : List Char) (h : isWordAlpha w = true) : '-' ∉ w := by
+  intro hm
+  simp only [isWordAlpha, Bool.and_eq_true, List.all_eq_true] at h
+  have := h.2 '-' hm
+  revert this
+  decide
+
+theorem isAlpha_ne_lt (c : Char) (h : isAlpha c = true) : c ≠ '<' := by
+  intro e
+  subst e
+  revert h
+  decide
+
+/-- **key_split_name_prefix.** The documented shape: for a key `w0-w1-…-wk-stop-…` whose leading words are alphabetic
+(and, from the second on, not 8-letter words starting with `a`–`f`, which are taken for hex) and whose next word `stop`
+is not such a word (a number, a token with digits, `abcdefab`, …), `key_split` returns `w0-w1-…-wk` — unless that
+prefix is itself 32 hex characters (then `"data"`). -/
+theorem key_split_name_prefix (w0 : List Char) (ws more : List (List Char)) (stop : List Char)
+    (h0 : isWordAlpha w0 = true) (hws : ∀ w ∈ ws, Keeps w) (hstop : ¬ Keeps stop)
+    (hnd : '-' ∉ stop ∧ ∀ m ∈ more, '-' ∉ m)
+    (hdata : ¬ ((joinDash (w0 :: ws)).length = 32 ∧ (joinDash (w0 :: ws)).all isHexDigit = true)) :
+    keySplitCore (joinDash (w0 :: ws ++ stop :: more)) = some (joinDash (w0 :: ws)) := by
+  have hsplit : splitL '-' (joinDash (w0 :: ws ++ stop :: more)) = w0 :: ws ++ stop :: more := by
+    apply splitL_joinDash _ (by simp)
+    intro w hw
+    simp only [List.cons_append, List.mem_cons, List.mem_append] at hw
+    rcases hw with rfl | hw | rfl | hw
+    · exact alpha_no_dash _ h0
+    · exact alpha_no_dash _ (hws w hw).1
+    · exact hnd.1
+    · exact hnd.2 w hw
+  cases w0 with
+  | nil => simp [isWordAlpha] at h0
+  | cons c0 r0 =>
+    have hc0 : isAlpha c0 = true := by
+      simp only [isWordAlpha, Bool.and_eq_true, List.all_cons] at h0
+      exact h0.2.1
+    have hext : extend (c0 :: r0) (ws ++ stop :: more) = (c0 :: r0) ++ tailJoin ws := by
+      rw [extend_keeps ws hws]
+      simp only [extend]
+      have : (isWordAlpha stop && !looksHex8 stop) = false := by
+        cases ha : isWordAlpha stop <;> cases hh : looksHex8 stop <;> simp
+        exact hstop ⟨ha, hh⟩
+      simp [this]
+    unfold keySplitCore
+    rw [hsplit]
+    simp only [List.cons_append, startOf, hc0, Bool.not_true, Bool.false_eq_true, if_false, hext]
+    rw [joinDash_cons] at hdata ⊢
+    have hd : ((c0 :: (r0 ++ tailJoin ws)).length == 32 && (c0 :: (r0 ++ tailJoin ws)).all isHexDigit) = false := by
+      cases h1 : ((c0 :: (r0 ++ tailJoin ws)).length == 32) <;> cases h2 : (c0 :: (r0 ++ tailJoin ws)).all isHexDigit <;> simp
+      apply hdata
+      simp only [List.cons_append]
+      exact ⟨by simpa using h1, h2⟩
+    simp only [hd, Bool.false_eq_true, if_false]
+    have hlt := isAlpha_ne_lt c0 hc0
+    split
+    · rename_i heq; cases heq
+    · rename_i heq
+      simp only [List.cons.injEq] at heq
+      exact absurd heq.1 hlt
+    · rfl
+
+
+/-- the whole key consists of kept words: it is returned as it is (`key_split('hello-world') = 'hello-world'`) -/
+theorem key_split_all_words (w0 : List Char) (ws : List (List Char))
+    (h0 : isWordAlpha w0 = true) (hws : ∀ w ∈ ws, Keeps w)
+    (hdata : ¬ ((joinDash (w0 :: ws)).length = 32 ∧ (joinDash (w0 :: ws)).all isHexDigit = true)) :
+    keySplitCore (joinDash (w0 :: ws)) = some (joinDash (w0 :: ws)) := by
+  have hsplit : splitL '-' (joinDash (w0 :: ws)) = w0 :: ws := by
+    apply splitL_joinDash _ (by simp)
+    intro w hw
+    simp only [List.mem_cons] at hw
+    rcases hw with rfl | hw
+    · exact alpha_no_dash _ h0
+    · exact alpha_no_dash _ (hws w hw).1
+  cases w0 with
+  | nil => simp [isWordAlpha] at h0
+  | cons c0 r0 =>
+    have hc0 : isAlpha c0 = true := by
+      simp only [isWordAlpha, Bool.and_eq_true, List.all_cons] at h0
+      exact h0.2.1
+    have hext : extend (c0 :: r0) ws = (c0 :: r0) ++ tailJoin ws := by
+      have := extend_keeps ws hws (c0 :: r0) []
+      simpa [extend] using this
+    unfold keySplitCore
+    rw [hsplit]
+    simp only [startOf, hc0, Bool.not_true, Bool.false_eq_true, if_false, hext]
+    rw [joinDash_cons] at hdata ⊢
+    have hd : ((c0 :: (r0 ++ tailJoin ws)).length == 32 && (c0 :: (r0 ++ tailJoin ws)).all isHexDigit) = false := by
+      cases h1 : ((c0 :: (r0 ++ tailJoin ws)).length == 32) <;> cases h2 : (c0 :: (r0 ++ tailJoin ws)).all isHexDigit <;> simp
+      apply hdata
+      simp only [List.cons_append]
+      exact ⟨by simpa using h1, h2⟩
+    simp only [List.cons_append, hd, Bool.false_eq_true, if_false]
+    have hlt := isAlpha_ne_lt c0 hc0
+    split
+    · rename_i heq; cases heq
+    · rename_i heq
+      simp only [List.cons.injEq] at heq
+      exact absurd heq.1 hlt
+    · rfl
+
+theorem stripLeft_of_head (set : List Char) (c : Char) (r : List Char) (h : c ∉ set) :
+    stripLeft set (c :: r) = c :: r := by simp [stripLeft, h]
+
+theorem stripSet_id (set : List Char) (cs : List Char) (h : ∀ c ∈ cs, c ∉ set) : stripSet set cs = cs := by
+  unfold stripSet
+  have h1 : stripLeft set cs = cs := by
+    cases cs with
+    | nil => rfl
+    | cons c r => exact stripLeft_of_head set c r (h c (by simp))
+  rw [h1]
+  have h2 : stripLeft set cs.reverse = cs.reverse := by
+    cases hr : cs.reverse with
+    | nil => rfl
+    | cons c r =>
+      apply stripLeft_of_head
+      apply h c
+      have : c ∈ cs.reverse := by rw [hr]; simp
+      simpa using this
+  rw [h2, List.reverse_reverse]
+
+theorem hexDigit_props (c : Char) (h : isHexDigit c = true) :
+    c ≠ '-' ∧ c ≠ ',' ∧ c ∉ ['_', '\'', '(', ')', '"'] := by
+  refine ⟨?_, ?_, ?_⟩
+  · rintro rfl; revert h; decide
+  · rintro rfl; revert h; decide
+  · simp only [List.mem_cons, List.not_mem_nil, or_false]
+    rintro (rfl | rfl | rfl | rfl | rfl) <;> (revert h; decide)
+
+/-- **key_split_hex32.** A key that is 32 lower-case hex characters (a bare token) is reported as `"data"`. -/
+theorem key_split_hex32 (cs : List Char) (hlen : cs.length = 32) (hhex : cs.all isHexDigit = true) :
+    keySplitCore cs = some "data".toList := by
+  have hall : ∀ c ∈ cs, isHexDigit c = true := by simpa using hhex
+  have hnd : '-' ∉ cs := fun hm => (hexDigit_props _ (hall _ hm)).1 rfl
+  have hnc : ',' ∉ cs := fun hm => (hexDigit_props _ (hall _ hm)).2.1 rfl
+  cases cs with
+  | nil => simp at hlen
+  | cons c0 r =>
+    unfold keySplitCore
+    rw [splitL_noSep '-' _ hnd]
+    simp only
+    have hstart : startOf c0 (c0 :: r) = c0 :: r := by
+      unfold startOf
+      split
+      · unfold firstPiece
+        rw [splitL_noSep ',' _ hnc]
+        exact stripSet_id _ _ (fun c hc => (hexDigit_props c (hall c hc)).2.2)
+      · rfl
+    rw [hstart]
+    have : ((c0 :: r).length == 32 && (c0 :: r).all isHexDigit) = true := by
+      rw [hhex, Bool.and_true]
+      simp [hlen]
+    simp only [extend, this, if_true]
+
+example : keySplit "hello-world-1" = "hello-world" ∧ keySplit "x-abcdefab" = "x" ∧
+    keySplit "ae05086432ca935f6eba409a8ecd4896" = "data" ∧ keySplit "<module.submodule.myclass object at 0xdaf372" = "myclass" ∧
+    keySplit "_(x)" = "x" ∧ keySplit "('x-2', 1)" = "x" ∧ keySplit "" = "Other" := by decide
+
+/-- non-vacuity of `key_split_name_prefix`: `getitem-from-array-0f3a…` -/
+example : Keeps "from".toList ∧ Keeps "array".toList ∧ ¬ Keeps "0f3a".toList ∧ ¬ Keeps "abcdefab".toList ∧
+    isWordAlpha "getitem".toList = true := by
+  unfold Keeps; decide
+
+theorem filter_nospace (l : List Char) (h : ' ' ∉ l) : l.filter (· ≠ ' ') = l := by
+  apply List.filter_eq_self.mpr
+  intro x hx
+  simp only [ne_eq, decide_not, Bool.not_eq_eq_eq_not, Bool.not_true, decide_eq_false_iff_not]
+  intro e; subst e; exact h hx
+
+theorem alpha_nospace (d : List Char) (h : d.all isAlpha = true) : ' ' ∉ d := by
+  intro hm
+  have := (List.all_eq_true.mp h) ' ' hm
+  revert this
+  decide
+
+/-- **parse_timedelta_default_unit.** A string that does not end in letters has no unit: it is read in the `default`
+unit — exactly as if that unit had been written after it. (`body ++ [c]` = the string without spaces, `c` its last
+character, not a letter; `d` = the default unit, letters only.) -/
+theorem parse_timedelta_default_unit (body : List Char) (c : Char) (d : List Char) (other : String)
+    (hc : isAlpha c = false) (hsp : ' ' ∉ body ++ [c]) (hd : d.all isAlpha = true) (hne : d ≠ []) :
+    parseTimedelta (String.ofList (body ++ [c])) (String.ofList d) =
+      parseTimedelta (String.ofList (body ++ [c] ++ d)) other := by
+  unfold parseTimedelta
+  have hsp2 : ' ' ∉ body ++ [c] ++ d := by
+    intro hm
+    rcases List.mem_append.mp hm with h | h
+    · exact hsp h
+    · exact alpha_nospace d hd h
+  simp only [String.toList_ofList, filter_nospace _ hsp, filter_nospace _ hsp2]
+  cases hb : body ++ [c] with
+  | nil => simp at hb
+  | cons c0 r =>
+    simp only [List.cons_append]
+    -- the (possibly `1`-prefixed) string is `pre ++ [c]`
+    have key : ∀ (pre : List Char), splitUnit (pre ++ [c]) = (pre ++ [c], []) ∧
+        splitUnit (pre ++ [c] ++ d) = (pre ++ [c], d) := by
+      intro pre
+      have h1 := splitUnit_append pre [] c (by simp) hc
+      have h2 := splitUnit_append pre d c hd hc
+      simp only [List.append_assoc, List.cons_append, List.nil_append] at h1 h2 ⊢
+      exact ⟨h1, h2⟩
+    have hdemp : d.isEmpty = false := by cases d <;> simp_all
+    by_cases h0 : (isDigit c0 || decide (c0 = '.')) = true
+    · obtain ⟨k1, k2⟩ := key body
+      rw [hb] at k1 k2
+      simp only [List.cons_append] at k1 k2
+      simp only [h0, if_true, k1, k2, List.isEmpty_nil, hdemp, Bool.false_eq_true, if_false]
+    · obtain ⟨k1, k2⟩ := key ('1' :: body)
+      simp only [List.cons_append] at k1 k2
+      rw [hb] at k1 k2
+      simp only [List.cons_append] at k1 k2
+      simp only [h0, Bool.false_eq_true, if_false, k1, k2, List.isEmpty_nil, hdemp, if_true]
+
+/-- **parse_timedelta_bare_unit.** A bare unit such as `"ms"` means one of it: a string that starts with neither a
+digit nor `.` is read as if `1` stood in front. -/
+theorem parse_timedelta_bare_unit (c0 : Char) (r : List Char) (dflt : String)
+    (h0 : (isDigit c0 || decide (c0 = '.')) = false) (hsp : ' ' ∉ c0 :: r) :
+    parseTimedelta (String.ofList (c0 :: r)) dflt = parseTimedelta (String.ofList ('1' :: c0 :: r)) dflt := by
+  unfold parseTimedelta
+  have hsp2 : ' ' ∉ '1' :: c0 :: r := by
+    intro hm
+    rcases List.mem_cons.mp hm with h | h
+    · revert h; decide
+    · exact hsp h
+  simp only [String.toList_ofList, filter_nospace _ hsp, filter_nospace _ hsp2, h0, Bool.false_eq_true, if_false]
+  have : (isDigit '1' || decide ('1' = '.')) = true := by decide
+  simp only [this, if_true]
+
+example : parseTimedelta "5" "ms" = parseTimedelta "5ms" "seconds" ∧ parseTimedelta "ms" "seconds" = parseTimedelta "1ms" "seconds" ∧
+    parseTimedelta "1.5" "h" = .int 5400 ∧ parseTimedelta "3" "seconds" = .int 3 := by decide
 
 end Dask.C18
